@@ -186,6 +186,19 @@ func c06(c *ctx) {
 			}
 		}
 	}
+	// writers configured with a control opcode (what ControlWriter builds on): whatever the opcode, only
+	// the first frame of a message carries it
+	for _, op := range []int{8, 9, 10} {
+		for si, side := range []string{"server", "client"} {
+			for oi, ops := range [][]wop{
+				{{"Write", "2s+1", ""}, {"Flush", "", ""}, {"Write", "1", ""}, {"Flush", "", ""}},
+				{{"Write", "a", ""}, {"Write", "1", ""}, {"FlushFragment", "", ""}, {"Write", "1", ""}, {"Flush", "", ""}},
+				{{"WriteThrough", "1", ""}, {"WriteThrough", "s+1", ""}, {"ReadFrom", "2s+1", "eof"}, {"Flush", "", ""}},
+			} {
+				run(wscenario{Key: fmt.Sprintf("ctlop/%d/%s/%d", op, side, oi), Ctor: []string{"NewWriterSize", "NewWriterBufferSize"}[(si+oi)%2], N: 20, Side: side, Op: op, Ops: ops})
+			}
+		}
+	}
 	// ReadFrom from sources that end badly - an error, or no progress any more - exactly when the buffer
 	// is full, one byte before and after, or at once: whatever was taken belongs to the message, and the
 	// final flush must still end it
